@@ -709,7 +709,8 @@ fn slice(tier: Tier) -> Vec<(String, PProblem)> {
         out.push(("long50".to_string(), p));
     }
     // feature interaction: pairs of feature transforms (quick: every 12th pair, thorough: every pair)
-    for p in family_combo(2).into_iter().step_by(tier.pick(12, 1)) {
+    // (clustering is a pre/post-processing of the solver: at the level of the operators a clustered problem is the plain one)
+    for p in family_combo(2).into_iter().filter(|p| p.clustering.is_none()).step_by(tier.pick(12, 1)) {
         out.push(("combo".to_string(), p));
     }
     out
